@@ -3,7 +3,7 @@ model: coq/model/Graph.v (insert_hugr, insert_wrapped), spec: coq/spec/InsertS.v
 import fw
 from fw import gZ, gN, glist, gopt, gpair, gapp, gnat
 from props import c04
-from props.c04 import (Driver, apply_bcmd, build_source, exc_class, gbcmd, gobs, gonat, gport, guniverse,
+from props.c04 import (Driver, apply_bcmd, build_source, exc_class, gbcmd, gobs, gonat, gport, gret, guniverse,
                        meta_key, op_key, palette, snapshot)
 
 WRAPPERS = ("insert_nested", "insert_cfg", "insert_conditional", "insert_tail_loop")
@@ -272,15 +272,14 @@ class C08(fw.Prop):
                     r = apply_bcmd(hA, c)
                 except Exception:
                     break
-                doneA.append(c)
+                doneA.append([c, r])
             if len(doneA) < len(case["A"]["ops"]):            # rebuild without the raising call and what follows
                 hA = Hugr(OPS[case["A"]["root"]])
-                for c in doneA:
-                    apply_bcmd(hA, c)
+                doneA = [[c, apply_bcmd(hA, c)] for c, _ in doneA]
             hB, doneB = build_source(["Insert", case["B"]["root"], case["B"]["meta"], case["B"]["ops"], None])
             parent = None if case["parent"] is None else Node(case["parent"])
             return {"hA": hA, "hB": hB, "parent": parent, "call": lambda: hA.insert_hugr(hB, parent),
-                    "wires": None, "doneA": doneA, "doneB": [bc for bc, _ in doneB]}
+                    "wires": None, "doneA": doneA, "doneB": doneB}
         bA, avail = prog_A(case["A"])
         bB, via, kinds = prog_B(case["B"])
         hA, hB = bA.hugr, bB.hugr
@@ -347,9 +346,9 @@ class C08(fw.Prop):
         OPS, _, METAS = palette()
         if case["kind"] == "hist":
             srcA = gapp("FromHist", gN(op_key(OPS[case["A"]["root"]])), gN(meta_key(None)),
-                        glist(gapp("Basic", gbcmd(c)) for c in obs["doneA"]))
+                        glist(gpair(gapp("Basic", gbcmd(c)), gret(r)) for c, r in obs["doneA"]))
             srcB = gapp("FromHist", gN(op_key(OPS[case["B"]["root"]])), gN(meta_key(METAS[case["B"]["meta"]])),
-                        glist(gapp("Basic", gbcmd(c)) for c in obs["doneB"]))
+                        glist(gpair(gapp("Basic", gbcmd(c)), gret(r)) for c, r in obs["doneB"]))
         else:
             srcA, srcB = gapp("FromObs", gobs(obs["obsA"])), gapp("FromObs", gobs(obs["obsB"]))
         if obs["wires"] is None:
